@@ -631,6 +631,8 @@ struct Analysis {
     reach_info_vs_subdir: Vec<Vec<u8>>,
     /// ... a line whose pattern is of the form `lit**...`
     reach_dstar: Vec<Vec<u8>>,
+    /// ... a line that starts with the bare token `[attr]` (git: a bracket-expression pattern; gitoxide: a macro without name)
+    reach_bare_attr: Vec<Vec<u8>>,
     /// ... a line that starts with a double quote which is never closed (git: the blank-delimited token is the pattern;
     /// gitoxide: the line is dropped)
     reach_bad_quote: Vec<Vec<u8>>,
@@ -648,6 +650,7 @@ fn analyse(spec: &Spec) -> Analysis {
         not_set: Vec<Vec<u8>>,
         dstar: bool,
         bad_quote: bool,
+        bare_attr: bool,
     }
     let mut lines = Vec::new();
     let mut defined_in_root_or_info: Vec<Vec<u8>> = Vec::new();
@@ -667,8 +670,9 @@ fn analyse(spec: &Spec) -> Analysis {
             lines.push(Line {
                 loc: loc.clone(),
                 names: toks.iter().map(|t| t.0.clone()).collect(),
+                has_empty_name: toks.iter().any(|t| t.0.is_empty()),
                 // `[attr]` followed by a blank is an empty macro name for gitoxide, and a pattern (bracket expression) for git
-                has_empty_name: toks.iter().any(|t| t.0.is_empty()) || head == b"[attr]",
+                bare_attr: head == b"[attr]",
                 not_set: toks.iter().filter(|t| !t.1).map(|t| t.0.clone()).collect(),
                 dstar: doublestar_after_literal_prefix(&effective_pattern(&head)),
                 bad_quote: head[0] == b'"' && {
@@ -757,7 +761,9 @@ fn analyse(spec: &Spec) -> Analysis {
     let reach_info_vs_subdir = info.into_iter().filter(|n| subdir.contains(n)).collect();
     let reach_dstar = closure(lines.iter().filter(|l| l.dstar).flat_map(|l| l.names.iter().cloned()).collect());
     let reach_bad_quote = closure(lines.iter().filter(|l| l.bad_quote).flat_map(|l| l.names.iter().cloned()).collect());
+    let reach_bare_attr = closure(lines.iter().filter(|l| l.bare_attr).flat_map(|l| l.names.iter().cloned()).collect());
     Analysis {
+        reach_bare_attr,
         reach_bad_quote,
         reach_dstar,
         reach_macro_not_set,
@@ -804,6 +810,7 @@ fn effective_pattern(head: &[u8]) -> Vec<u8> {
     }
 }
 
+const SIG_BARE_ATTR: &str = "bare-attr-token-is-a-pattern-for-git";
 const SIG_BAD_QUOTE: &str = "unterminated-quote-line-dropped";
 const SIG_DSTAR: &str = "doublestar-after-literal-prefix";
 const SIG_INFO: &str = "info-attributes-below-subdirectory-files";
@@ -814,7 +821,9 @@ const SIG_EMPTY_NAME: &str = "empty-attribute-name-accepted";
 /// The recorded deviation class that can explain a difference in attribute `name`, if any
 fn classify(a: &Analysis, name: &str) -> Option<&'static str> {
     let n = name.as_bytes().to_vec();
-    if a.reach_bad_quote.contains(&n) {
+    if a.reach_bare_attr.contains(&n) {
+        Some(SIG_BARE_ATTR)
+    } else if a.reach_bad_quote.contains(&n) {
         Some(SIG_BAD_QUOTE)
     } else if a.reach_dstar.contains(&n) {
         Some(SIG_DSTAR)
@@ -1076,6 +1085,7 @@ fn main() {
                     c.label(match sig {
                         SIG_DSTAR => "tolerated:doublestar-after-literal-prefix",
                         SIG_BAD_QUOTE => "tolerated:unterminated-quote-line-dropped",
+                        SIG_BARE_ATTR => "tolerated:bare-attr-token-is-a-pattern-for-git",
                         SIG_INFO => "tolerated:info-attributes-below-subdirectory-files",
                         SIG_MACRO_NOT_SET => "tolerated:macro-expanded-although-not-set",
                         SIG_MACRO_REDEF => "tolerated:macro-definition-not-refreshed-in-outcome",
